@@ -76,6 +76,22 @@ RULE = ("cases = corpus + EVERY history of length <=5 (thorough: <=6) creating a
         "oracle:inconsistent-*): tms().get_justifications vs the twin TMS, working_memory().get_by_type over all types vs get(), the "
         "fact type of every handle, working_memory().stats(), fire_all()'s fired list, update()'s result, the lookup of resolve_premise_keys, "
         "get_modified_handles/get_retracted_handles after the clear. "
+        "+ the MULTI-RESULT-FIRING family (about 4,300 histories in the quick tier): token `F<a>+<a>[+<a>]` = ONE firing whose action "
+        "returns 2..3 ActionResults, which process_action_results applies in the order emitted (each through the engine's own entry "
+        "point): over 13 small support graphs with a chosen premise p and another fact q EVERY ordered selection of 2 and of 3 distinct "
+        "results from {InsertLogicalFact from p, InsertLogicalFact from p and q, InsertFact, Retract(p), Retract(q), Update(p)} "
+        "(derive-then-consume, consume-then-derive [outside the domain: premise dead when recorded], insert between two retractions), "
+        "the 2-result firings also followed by a later retraction of every fact involved, results naming a fact made earlier in the "
+        "same firing, N/8 random histories with one or two such firings drawn against the liveness simulation. The states between the "
+        "results of one firing are not observable: the harness shows one step (results joined by `+`, sets after the firing); the driver "
+        "desugars the firing into the history of its results (theorem actions_are_history) and evaluates Spec.runOk on it with the real "
+        "observation at the firing's last result (Driver/C08.lean collapse / expand). "
+        "+ the PROMOTION family (about 3,300 histories): token `Q<f>` = tms_mut().remove_justifications(f) followed by "
+        "tms_mut().add_explicit_justification(f) ('promote a derived fact to a stated one'), desugared to add_explicit_justification(f) "
+        "(f is explicitly supported from then on, its dependents are untouched; the count of stored justifications is corrected by the "
+        "driver): every fixed support graph x every fact promoted (once, twice, before / after a further derivation or justification, "
+        "after a sibling's promotion, between two retractions) x every ordered selection of up to 2 retractions; N/8 random histories "
+        "with promotions of live facts at random places. "
         "Each history is run on IncrementalEngine (real code) plus a stand-alone TruthMaintenanceSystem fed the same calls "
         "(to observe the return value of retract_with_cascade) and on the Lean model; after EVERY operation the result, "
         "working_memory().get(h) for every handle, is_logical/is_explicit/has_valid_justification and tms().stats() are diffed "
@@ -91,18 +107,26 @@ TRUSTED = [
     "the driver's desugaring of the reach ops (Driver/C08.lean parseTok / splitW: which model operations a rule action, an insert twin, "
     "an update or reset_with_deffacts stands for; the trigger side of fire_all - agenda, conditions, field write-back - is not modelled, "
     "it must insert and retract nothing, which the `maintenance` clause checks on every such step)",
+    "multi-result firings: the states between the results of one firing cannot be observed; the oracle takes for them the reported "
+    "result (handle / the twin TMS's cascade list, fed in the emitted order) and the model's sets (which meet every clause by "
+    "model_meets_spec and are the only ones that do by cascade_exact) and evaluates every clause on the real observation at the "
+    "firing's last result; promotion `Q<f>` is desugared to add_explicit_justification(f) and the stored-justification count is "
+    "corrected in the driver (removedOfSeg), not in Model.lean",
 ]
 ASSUMPTIONS = [
     "domain (the property's quantifier): every premise is live when its justification is recorded, and a further justification "
     "(tms_mut().add_*_justification) is recorded only for a fact that is itself live; outside it the model still mirrors the code "
     "(checked) but the property clauses are not claimed (theorems support_invariant_needs_wf, rejustified_dead_handle)",
     "working memory is changed only through the engine (working_memory_mut().insert/insert_from_stream/retract/update/clear(), "
-    "tms_mut().remove_justifications() and tms_mut().clear() on their own are not part of a history: they edit one of the two stores "
-    "behind the engine's back); the one call made through working_memory_mut() is clear_modification_tracking(), "
+    "tms_mut().remove_justifications() ON ITS OWN and tms_mut().clear() are not part of a history: they edit one of the two stores "
+    "behind the engine's back - after remove_justifications(f) alone a present logical fact has no justification at all, which no "
+    "reading of the property admits; the PAIR remove_justifications(f) + add_explicit_justification(f) ('promote to explicit', op `Q`) "
+    "IS part of a history: it states f explicitly, like add_explicit_justification(f)); the one call made through working_memory_mut() is clear_modification_tracking(), "
     "a maintenance call that by contract changes no fact: histories may contain it anywhere and it must be invisible; "
     "reset_with_deffacts() IS part of a history: it ends it and starts a new one (needs the repair F-C08-reset: the TMS is cleared too)",
     "a rule action's RetractByType is driven only for fact types with a single fact (`N` facts): with several live facts of one type "
-    "the engine retracts 'the first' in HashSet order, which no deterministic model can name; one ActionResult per firing, one firing per fire_all",
+    "the engine retracts 'the first' in HashSet order, which no deterministic model can name; one firing per fire_all, with one ActionResult "
+    "(`F<a>`) or several (`F<a>+<a>[+<a>]`, applied in the order emitted)",
     "fact handles are u64 modelled as Nat; fact type/data, agenda and rule propagation do not influence presence or support",
 ]
 
